@@ -8,6 +8,10 @@ from . import gen
 from .ref import Ref
 
 
+# every n-th explicit machine id (deterministically chosen) is handed over as numpy.int64; 0 = never
+NUMPY_MACHINE_IDS = 7
+
+
 class Run:
     """A real instance + dispatcher driven side by side with a Ref."""
 
@@ -97,7 +101,13 @@ class Run:
     def dispatch(self, oid, m, explicit_machine=True):
         op = self.ops[oid]
         if explicit_machine or len(self.r.op_machines[oid]) > 1:
-            self.d.dispatch(op, m)
+            if NUMPY_MACHINE_IDS and (oid + len(self.r.history)) % NUMPY_MACHINE_IDS == 3:
+                # machine ids often arrive as numpy integers (actions sampled from a space, ids
+                # read from an array); they are integers like any other
+                import numpy as np
+                self.d.dispatch(op, np.int64(m))
+            else:
+                self.d.dispatch(op, m)
         else:
             self.d.dispatch(op)
         self.r.apply(oid, m)
